@@ -6,7 +6,7 @@ tie:   T-cor – the extracted model is run against the real momo::HashSet/HashM
 oracle: std::set twin + kit protocol/leak summary inside the harness (independent of the model)."""
 import os, re
 
-KINDS = {0: ['L1', 'L2', 'L3', 'L4', 'L4d'], 1: ['O1', 'O2', 'O3', 'O8'], 2: ['P2', 'P8', 'N1']}
+KINDS = {0: ['L1', 'L2', 'L3', 'L4', 'L4d'], 1: ['O1', 'O2', 'O3', 'O8'], 2: ['N1']}
 TU_OF = {k: tu for tu, ks in KINDS.items() for k in ks}
 TU_NAME = {0: 'limp4', 1: 'open', 2: 'limp-one'}
 
@@ -50,17 +50,17 @@ def gen_cases(ctx, scale):
     # 1. random histories, all kinds x key categories x hash distributions x failure intensities
     for i in range(260 * scale):
         kind = r.choice(main) if r.chance(3, 4) else r.choice(allk)
-        keycat = 'S' if r.chance(2, 3) else 'F'
+        keycat = r.choice(['S', 'S', 'T', 'T', 'F', 'F'])
         dist = r.choice([0, 0, 4, 4, 2, 5, 1, 3])
         ls = r.choice([0, 1, 1, 2, 2, 3, 4])
-        sm = 'M' if r.chance(1, 4) else 'S'
+        sm = 'M' if (keycat != 'T' and r.chance(1, 4)) else 'S'
         inten = r.choice([0, 30, 60, 90, 100])
         nkeys = r.choice([12, 30, 80, 200])
-        add(kind, keycat, dist, ls, sm, gen_history(r, keycat == 'S', r.range(10, 90), nkeys, inten))
+        add(kind, keycat, dist, ls, sm, gen_history(r, keycat != 'F', r.range(10, 90), nkeys, inten))
     # 2. every failure point k of a growth, repeated over the following operations (several generations)
     for i in range(14 * scale):
         kind = r.choice(main)
-        keycat = 'S' if (kind[0] == 'O' or r.chance(2, 3)) else 'F'
+        keycat = r.choice(['S', 'T', 'T']) if (kind[0] == 'O' or r.chance(2, 3)) else 'F'
         dist = r.choice([0, 4, 4, 2, 5])
         ls = r.choice([0, 1, 2])
         sm = 'S'
@@ -70,7 +70,7 @@ def gen_cases(ctx, scale):
         for k in range(0, 10):
             ops = list(base)
             for j, key in enumerate(tail_keys):
-                if keycat == 'S' and (kind[0] == 'O' or j % 2 == 0):
+                if keycat != 'F' and (kind[0] == 'O' or j % 2 == 0):
                     ops.append('i%df%d' % (key, k if j < 6 else 1 + (k + j) % 4))
                 else:
                     ops.append('i%da%d' % (key, k if j < 6 else (k + j) % 3))
@@ -79,8 +79,8 @@ def gen_cases(ctx, scale):
             add(kind, keycat, dist, ls, sm, ops)
     # 3. persistent refusal: the table is overloaded through the fallback path until "Hash table is full"
     for i in range(10 * scale):
-        kind = r.choice(main + ['N1', 'P2'])
-        keycat = r.choice(['S', 'F'])
+        kind = r.choice(main + ['N1', 'N1'])
+        keycat = r.choice(['S', 'F', 'T'])
         ls = r.choice([0, 1, 2])
         dist = r.choice([0, 4, 1, 2])
         n0 = r.range(1, 10)
@@ -98,7 +98,7 @@ def gen_cases(ctx, scale):
             ops.append('i%d%s' % (k, 'f1' if t < 6 else 'a0' if t < 8 else 'f%d' % r.range(1, 5)))
             if r.chance(1, 8): ops.append('r%d' % r.below(k + 1))
         ops += ['t'] + ['i%d' % k for k in range(300, 300 + r.range(1, 40))]
-        add(kind, 'S', dist, ls, 'S', ops)
+        add(kind, r.choice(['T', 'T', 'S']), dist, ls, 'S', ops)
     return cases
 
 
@@ -237,7 +237,7 @@ def run(ctx):
 
 
 RULE = ('cases = random insert/remove/find/reserve histories over bucket kinds {LimP4<1..4> (one allocation per bucket array), Open2N2<1..3>, Open8, '
-        'LimP<2,8>, One} x {fast-hash uint64 keys, slow-hash kit::ElemNtm keys} x {HashSet, HashMap} x 6 hash distributions x start sizes 2^0..2^4, '
+        'One} x {fast-hash uint64 keys, slow-hash kit::ElemNtm keys} x {HashSet, HashMap} x 6 hash distributions x start sizes 2^0..2^4, '
         'each growth-capable op armed with "n-th allocation refused" or "n-th hash call throws"; plus systematic families: every failure index k=0..9 '
         'of a growth repeated over the next operations, persistent refusal until "Hash table is full", growth with every migration failing. '
         'distinct = distinct case line; non-trivial = history that reached >= 2 coexisting generations or a fallback insertion')
